@@ -109,13 +109,13 @@ struct Interp {
     // exact mode: one expansion against the reference, under three stack paintings and three slack fills
     void exact(const std::string &in) {
         evals++;
+        if ((long)in.size() >= kMax) { ctx.label("skipped:line-at-or-over-the-buffer-size"); return; }   // the caller's lines are shorter than the buffer (and the model must not run ahead of the library)
         World before = w;
         Ref r(w);
         std::string want = r.expand(in);                    // also advances the model's var store
         long need = (long)std::max(in.size(), want.size()) + 1;
         bool over = (long)want.size() > kMax - 2;
         long bufsize = over ? kBuff : need;
-        if ((long)in.size() >= kMax) return;                // the caller's lines are shorter than the buffer
         std::string first;
         for (int rep = 0; rep < 3; rep++) {
             // the call must be repeatable: same var store before each repetition
@@ -157,7 +157,7 @@ struct Interp {
         bool first_null = false;
         int spawns0 = c10_spawns();
         for (int rep = 0; rep < 3; rep++) {
-            if (rep && in.find('%') != std::string::npos) restore_vars(before.vars);
+            if (in.find('%') != std::string::npos) restore_vars(before.vars);   // every repetition starts from the same (model) store - also the first: an earlier operation of the case may have left puts behind
             long len = LA(c10_expand(in.data(), (long)in.size(), can_grow ? kBuff : (long)in.size() + 1 + (rep ? 64 : 0), rep, (!can_grow && rep) ? 1 : 0, rep));
             VT_CHECK(ctx, len != -2, "mismatch", "not-terminated; result not terminated inside the buffer for \"" << printable(in, 60) << "\"");
             VT_CHECK(ctx, len <= kMax, "mismatch", "too-long; result length " << len);
